@@ -73,6 +73,19 @@ class CFBinding:
     def skip(self):
         return skip_for(self.lp)
 
+    def probe_labels(self, mab, full):
+        first = self.spec_label(mab.arms[0])
+        last = self.spec_label(mab.arms[-1])
+        q = [{"op": "predict_expectations", "m": 2}, {"op": "predict", "m": 2}, {"op": "cold_arms"}]
+        if not full:
+            return [q]
+        return [q,
+                [{"op": "warm_start", "q": [1, 2]}, {"op": "cold_arms"}] + q,
+                [{"op": "partial_fit", "batch": [{"a": first, "r": 1}]}] + q,
+                [{"op": "add_arm", "arm": "d"}] + q + [{"op": "partial_fit", "batch": [{"a": "d", "r": 1}]}] + q,
+                [{"op": "remove_arm", "arm": first}] + q,
+                [{"op": "fit", "batch": [{"a": last, "r": 1}]}] + q + [{"op": "warm_start", "q": [1, 1]}] + q]
+
     # ---- construction -------------------------------------------------
     def policy(self, bin_name="none"):
         LP = _mab_module().LearningPolicy
@@ -501,10 +514,7 @@ class Replay:
         op = label["op"]
         arms = list(obj.arms)
         if "readonly" in self.checks:
-            after = snapshot(obj, rng=False, skip=skip)
-            if after != before:
-                self.report("readonly.changed", "%s changed the model: %s" % (op, "; ".join(diff(before, after))),
-                            skey, label)
+            self.check_readonly(obj, twin, op, before, skey, label, skip)
         rows, shape_ok = rows_of(value, m)
         if "shape" in self.checks and not shape_ok:
             self.report("shape.rows", "%s with %d rows returned %r" % (op, m, type(value).__name__), skey, label)
@@ -539,25 +549,51 @@ class Replay:
                 if any(arm != want for arm in rows):
                     self.report("result.arm", "predict returned %s, specification says %r" % (rows, want), skey, label)
 
+    def check_readonly(self, obj, twin, op, before, skey, label, skip):
+        """C10: the deep snapshot (minus random streams) must be unchanged; if some internal representation did change
+        (a cache, say) the verdict is behavioural: the queried bandit and the unqueried copy, put at the same stream
+        positions, must answer a long continuation (training, arm changes, warm start, refit, queries) identically."""
+        after = snapshot(obj, rng=False, skip=skip)
+        if after == before:
+            return
+        from harness.snap import copy_streams
+        unqueried = copy.deepcopy(twin)
+        if copy_streams(obj, unqueried):
+            x, y = self.probe(obj, full=True), self.probe(unqueried, full=True)
+            if same(x, y):
+                self.stats["readonly_internal_only"] = self.stats.get("readonly_internal_only", 0) + 1
+                return
+            detail = "%s changed the model (%s) and a continuation answers %s instead of %s" % (
+                op, "; ".join(diff(before, after)), _fmt(x), _fmt(y))
+        else:
+            detail = "%s changed the model: %s" % (op, "; ".join(diff(before, after)))
+        self.report("readonly.changed", detail, skey, label)
+
     @staticmethod
     def _eq(arm):
         return arm.item() if hasattr(arm, "item") else arm
 
-    def probe(self, mab):
-        """Outputs of a fixed continuation on a deep copy: what a user can observe of the model."""
+    def probe(self, mab, full=False):
+        """Outputs of fixed continuations, each on its own deep copy: what a user can observe of the model.
+        With full=True several continuations are run, each beginning with a different kind of call, so that a
+        difference that only shows when (say) warm_start comes before the next query is not masked."""
         b = self.b
-        work = copy.deepcopy(mab)
         out = []
-        for step in (getattr(b, "probe_steps", None) or [("predict_expectations", 1), ("predict", 1)]):
-            try:
-                if step[0] in ("predict", "predict_expectations"):
-                    out.append(getattr(work, step[0])(b.contexts(step[1])))
-                elif step[0] == "cold_arms":
-                    out.append(list(work.cold_arms))
-                elif step[0] == "partial_fit":
-                    out.append(b.call(work, {"op": "partial_fit", "rows": step[1]})[0])
-            except Exception as error:  # noqa
-                out.append("raised " + type(error).__name__)
+        for labels in b.probe_labels(mab, full):
+            work = copy.deepcopy(mab)
+            for label in labels:
+                if label["op"] == "cold_arms":
+                    try:
+                        out.append(list(work.cold_arms))
+                    except Exception as error:  # noqa
+                        out.append("raised " + type(error).__name__)
+                    continue
+                if label["op"] == "add_arm" and b.lm[label["arm"]] in work.arms:
+                    continue
+                if label["op"] == "remove_arm" and (b.lm[label["arm"]] not in work.arms or len(work.arms) <= 2):
+                    continue
+                outcome, value = b.call(work, label, self.feat)
+                out.append(value if outcome == "ok" else "raised " + outcome)
         return out
 
     # -- C07 ---------------------------------------------------------------
